@@ -38,6 +38,15 @@ def decode_fault(family, body):
             return None
         return dict(faultcode=d['faultcode'], faultstring=d.get('faultstring'), detail=d.get('detail'), extra=sorted(
             k for k in d if k not in ('faultcode', 'faultstring', 'detail', 'faultactor')))
+    if family == 'msgpackrpc':
+        # MessagePack-RPC error reply: [3, msgid, {faultcode, faultstring, ...}]
+        import msgpack
+        d = msgpack.unpackb(body, raw=False)
+        if not (isinstance(d, (list, tuple)) and len(d) >= 3 and d[0] == 3 and isinstance(d[2], dict)):
+            return None
+        d = d[2]
+        return dict(faultcode=d.get('faultcode'), faultstring=d.get('faultstring'), detail=d.get('detail'), extra=sorted(
+            k for k in d if k not in ('faultcode', 'faultstring', 'detail', 'faultactor')))
     if family == 'msgpack':
         import msgpack
         d = msgpack.unpackb(body, raw=False)
